@@ -349,26 +349,29 @@ class Cas:
         """a path src -> any dst that neither passes a valid compare node on its 'match' edge nor
         leaves a base_hash guard by its false edge (base_hash falsy: nothing to compare)"""
         cfg = self.cfg
-        prev: dict[int, int] = {}
-        seen = {src}
-        stack = [src]
+        nn = NNState(self.fa.fi.node)
+        start = (src, frozenset())
+        prev: dict[tuple[int, frozenset], tuple[int, frozenset]] = {}
+        seen = {start}
+        stack = [start]
         while stack:
-            n = stack.pop()
+            key = stack.pop()
+            n, st = key
             if n in dsts and n != src:
-                path = [n]
-                while path[-1] != src:
+                path = [key]
+                while path[-1] != start:
                     path.append(prev[path[-1]])
-                return list(reversed(path))
-            for s, lab in cfg.succ[n]:
-                if lab == "x" or s in seen:
+                return [k[0] for k in reversed(path)]
+            if n in valid:
+                continue  # passing the compare (either edge) discharges the obligation
+            for s, lab, st2 in nn.edges(cfg, n, st):
+                if (s, st2) in seen:
                     continue
-                if n in valid:
-                    continue  # passing the compare (either edge) discharges the obligation
                 if n in self.protecting and lab == "f":
                     continue
-                seen.add(s)
-                prev[s] = n
-                stack.append(s)
+                seen.add((s, st2))
+                prev[(s, st2)] = key
+                stack.append((s, st2))
         return None
 
 
@@ -646,23 +649,51 @@ def _temp_cleanup(run: Run, inst: Install, cas: Cas) -> None:
                       path=cfg.describe_path(pth[-12:], mod.relpath), line=endn.lineno)
 
 
-def nn_reach(cfg: CFG, fn: ast.AST, starts: list[int], stop: set[int]) -> tuple[set[int], list[int]]:
-    """nodes and return nodes reachable from `starts` along normal edges, not continuing past `stop`, where the None-ness of the
-    None-or-error locals (err_names) is tracked: `x = None` / `x = <error value>` set it, a test of x (`x is None`, `x is not
-    None`, `x`, `not x`) is followed only on the edge that agrees with what is known (and teaches it on the other paths)"""
-    tracked = err_names(fn)
+class NNState:
+    """None-ness of the None-or-error locals (err_names) along a path: `x = None` / `x = <error value>` set it; a test of x
+    (`x is None`, `x is not None`, `x`, `not x`) is feasible only on the edge that agrees with what is known, and teaches it"""
 
-    def test_of(t: ast.AST) -> tuple[str, bool] | None:
-        # (variable, edge on which it is NOT None)
+    def __init__(self, fn: ast.AST):
+        self.tracked = err_names(fn)
+
+    def test_of(self, t: ast.AST) -> tuple[str, bool] | None:
         neg = False
         if isinstance(t, ast.UnaryOp) and isinstance(t.op, ast.Not):
             t, neg = t.operand, True
-        if isinstance(t, ast.Name) and t.id in tracked:
+        if isinstance(t, ast.Name) and t.id in self.tracked:
             return t.id, not neg
-        if isinstance(t, ast.Compare) and len(t.ops) == 1 and isinstance(t.left, ast.Name) and t.left.id in tracked and isinstance(t.comparators[0], ast.Constant) and t.comparators[0].value is None and isinstance(t.ops[0], (ast.Is, ast.IsNot)):
+        if isinstance(t, ast.Compare) and len(t.ops) == 1 and isinstance(t.left, ast.Name) and t.left.id in self.tracked and isinstance(t.comparators[0], ast.Constant) and t.comparators[0].value is None and isinstance(t.ops[0], (ast.Is, ast.IsNot)):
             return t.left.id, isinstance(t.ops[0], ast.IsNot) != neg
         return None
 
+    def edges(self, cfg: CFG, n: int, st: frozenset, follow_exc: bool = False):
+        """(successor, label, state after) for the feasible edges out of n in state st"""
+        node = cfg.nodes[n]
+        d = dict(st)
+        if node.kind == "stmt" and isinstance(node.ast, ast.Assign) and len(node.ast.targets) == 1 and isinstance(node.ast.targets[0], ast.Name) and node.ast.targets[0].id in self.tracked:
+            v = node.ast.value
+            d[node.ast.targets[0].id] = "N" if isinstance(v, ast.Constant) and v.value is None else "E"
+        tv = self.test_of(node.ast) if node.kind == "test" and node.ast is not None else None
+        for s, lab in cfg.succ[n]:
+            if lab == "x":
+                if follow_exc:
+                    yield s, lab, st  # (the statement did not complete)
+                continue
+            d2 = d
+            if tv is not None and lab in ("t", "f"):
+                var, nn_edge_true = tv
+                not_none_here = (lab == "t") == nn_edge_true
+                known = d.get(var)
+                if known is not None and (known == "E") != not_none_here:
+                    continue
+                d2 = dict(d)
+                d2[var] = "E" if not_none_here else "N"
+            yield s, lab, frozenset(d2.items())
+
+
+def nn_reach(cfg: CFG, fn: ast.AST, starts: list[int], stop: set[int]) -> tuple[set[int], list[int]]:
+    """nodes and return nodes reachable from `starts` along feasible normal edges (NNState), not continuing past `stop`"""
+    nn = NNState(fn)
     seen: set[tuple[int, frozenset]] = set()
     nodes: set[int] = set()
     rets: list[int] = []
@@ -675,29 +706,12 @@ def nn_reach(cfg: CFG, fn: ast.AST, starts: list[int], stop: set[int]) -> tuple[
         nodes.add(n)
         if n in stop:
             continue
-        node = cfg.nodes[n]
-        if isinstance(node.ast, ast.Return):
+        if isinstance(cfg.nodes[n].ast, ast.Return):
             if n not in rets:
                 rets.append(n)
             continue
-        d = dict(st)
-        if node.kind == "stmt" and isinstance(node.ast, ast.Assign) and len(node.ast.targets) == 1 and isinstance(node.ast.targets[0], ast.Name) and node.ast.targets[0].id in tracked:
-            v = node.ast.value
-            d[node.ast.targets[0].id] = "N" if isinstance(v, ast.Constant) and v.value is None else "E"
-        tv = test_of(node.ast) if node.kind == "test" and node.ast is not None else None
-        for s, lab in cfg.succ[n]:
-            if lab == "x":
-                continue
-            d2 = d
-            if tv is not None and lab in ("t", "f"):
-                var, nn_edge_true = tv
-                not_none_here = (lab == "t") == nn_edge_true
-                known = d.get(var)
-                if known is not None and (known == "E") != not_none_here:
-                    continue  # infeasible edge
-                d2 = dict(d)
-                d2[var] = "E" if not_none_here else "N"
-            work.append((s, frozenset(d2.items())))
+        for s, _lab, st2 in nn.edges(cfg, n, st):
+            work.append((s, st2))
     return nodes, sorted(rets)
 
 
